@@ -3,7 +3,7 @@ import MythVerif.Proofs.WsQueueTsoTac
 namespace MythVerif.WsqTso
 open MythVerif.Wsq
 
-set_option maxHeartbeats 1000000 in
+set_option maxHeartbeats 4000000 in
 theorem t_wk4 (s s' : St) (p : Pid) (r) : Inv s → s.tpc p = .wk4 r → stepT s p = some s' → Inv s' := by
   intro h heq hs
   have hb := h.tbufE p (by simp [heq, mayBuf])
@@ -13,7 +13,7 @@ theorem t_wk4 (s s' : St) (p : Pid) (r) : Inv s → s.tpc p = .wk4 r → stepT s
   simp only [ownerLocked, carry, resetting, ownerFlight] at *
   tso_finish
 
-set_option maxHeartbeats 1000000 in
+set_option maxHeartbeats 4000000 in
 theorem t_wk4u (s s' : St) (p : Pid) (r) : Inv s → s.tpc p = .wk4u r → stepT s p = some s' → Inv s' := by
   intro h heq hs
   have hcfg := h.cfg
@@ -27,7 +27,7 @@ theorem t_wk4u (s s' : St) (p : Pid) (r) : Inv s → s.tpc p = .wk4u r → stepT
     tso_finish
   · simp at hs
 
-set_option maxHeartbeats 1000000 in
+set_option maxHeartbeats 4000000 in
 theorem t_wk5 (s s' : St) (p : Pid) (b) : Inv s → s.tpc p = .wk5 b → stepT s p = some s' → Inv s' := by
   intro h heq hs
   have hb := h.tbufE p (by simp [heq, mayBuf])
@@ -37,7 +37,7 @@ theorem t_wk5 (s s' : St) (p : Pid) (b) : Inv s → s.tpc p = .wk5 b → stepT s
   simp only [ownerLocked, carry, resetting, ownerFlight] at *
   tso_finish
 
-set_option maxHeartbeats 1000000 in
+set_option maxHeartbeats 4000000 in
 theorem t_wk6 (s s' : St) (p : Pid) : Inv s → s.tpc p = .wk6 → stepT s p = some s' → Inv s' := by
   intro h heq hs
   have hcfg := h.cfg
